@@ -669,7 +669,10 @@ func (vc *VC) havocResultsSig(st *State, sig *types.Signature, rts []types.Type)
 
 func (vc *VC) havocForUnknownCall(st *State, callee string) {
 	vc.havocAllHeap(st)
-	for g := range st.ghost {
+	for g := range vc.eng.specs.Ghosts {
+		if vc.eng.ufuns[g] != nil {
+			continue // ghost functions are state-independent
+		}
 		st.ghost[g] = vc.fresh("g_"+g, vc.eng.ghostSort(g))
 	}
 	// package-level variables may change too
@@ -1082,6 +1085,14 @@ func (vc *VC) applyContract(st *State, ct *Contract, o *types.Func, sig *types.S
 	env := vc.bindContractEnv(ct, sig, recv, argv)
 	vc.callOrd[ct.Key]++
 	site := fmt.Sprintf("%d", vc.callOrd[ct.Key])
+	if vc.contract != nil && len(vc.frames) <= 1 {
+		for _, bc := range vc.contract.Befores[ct.Key] {
+			t := vc.specBool(st, vc.entry, bc.Expr, nil, nil)
+			clause := fmt.Sprintf("%s/before:%s/assert%d", vc.fn.Key, ct.Key, bc.Ord)
+			vc.emit(st, "assert", clause, site, t, c.Pos(), bc.Src)
+			vc.assume(st, t)
+		}
+	}
 	// requires
 	pre := st.clone()
 	for _, rq := range ct.Requires {
